@@ -157,7 +157,7 @@ func (r *runner) run() int {
 		CrossSolver: "z3", CrossBudget: 100}
 	if r.tier == "thorough" {
 		cfg.TimeoutMs = 60000
-		cfg.MaxPaths = 150000
+		cfg.MaxPaths = 400000
 		cfg.MaxDecisions = 1500
 		cfg.CrossSolver = "z3"
 		cfg.CrossBudget = 400
